@@ -202,8 +202,12 @@ func envOr(k, d string) string {
 	return d
 }
 
-// thoroughArchs lists the additional GOARCH loads of the thorough tier.
-var thoroughArchs = map[string][]string{}
+// thoroughArchs lists the additional GOARCH loads of the thorough tier (default: arm64). The checks built on the
+// launch sequence are re-evaluated on the 32-bit arm build as well (different syscall tables and word size).
+var thoroughArchs = map[string][]string{
+	"C04": {"arm64", "arm"}, "C05": {"arm64", "arm"}, "C06": {"arm64", "arm"}, "C07": {"arm64", "arm"},
+	"C08": {"arm64", "arm"}, "C13": {"arm64", "arm"}, "C16": {"arm64", "arm"},
+}
 
 func cmdBaseline(args []string) int {
 	out := "anchors_baseline.json"
